@@ -480,7 +480,27 @@ prop("C19",
                  "lock wrappers lock per call; z3 decides over every order of the two ceremonies' read/write steps (each ceremony's own order kept, all 2^32 start values) whether both can "
                  "report the same counter; a satisfying schedule is replayed natively with two authenticators sharing Arc<Mutex<store>> / Arc<RwLock<store>> and explicit polling",
      outside=["deadlock freedom", "register/register and assert/register interleavings (lost credentials)", "three concurrent ceremonies", "real multi-threaded schedulers (the replay uses explicit single-threaded polling)"],
-     level_text="PARTIAL claim: the pairwise-distinct-counters clause for two concurrent assertions; deadlock freedom and registrations are not decided.",
+     level_text="PARTIAL claim: the pairwise-distinct-counters clause for two concurrent assertions and the forwarding / single-acquisition shape of the lock wrappers; deadlock freedom in general and interleaved registrations are not decided.",
      technique="symbolic path execution of rustc MIR (read / suspend / write structure, lock scope) + z3 query over all interleavings of two ceremonies' atomic steps, native replay",
+     trusted=E2_TRUST,
+     )
+
+prop("C03",
+     title="Authentication returns a signature that verifies and is bound to the ceremony",
+     engine="mirsym",
+     engines=[_e2.engine], e2=["get_assertion"],
+     functions=["Authenticator::get_assertion::{closure#0} (coroutine body, MIR)"],
+     stubs=["every callee is an environment event: ECDSA signing, DER encoding, SHA-256, AuthenticatorData's constructor / setters / to_vec and the COSE-key conversion are NOT examined, "
+            "only which values flow into and out of them"],
+     explanation="data-flow binding on every successful path of get_assertion (all request flags, all Ok/Err/Pending outcomes of the calls): exactly one signature is made; its key is converted "
+                 "from the key field of the credential that came out of the lookup and that credential is the one named in the response; the signed buffer starts as the serialisation of exactly "
+                 "the authenticator data value that is returned and is extended exactly once, by the request's client data hash, and touched by nothing else; that authenticator data is built "
+                 "for the request's rp_id and never given attested credential data; the returned signature bytes descend from that signature. Violations are replayed natively with real "
+                 "P-256 keys: the replay verifies the returned signature as a relying party would",
+     outside=["that the ECDSA signature verifies as mathematics (p256 crate), SHA-256, DER, the byte layout of AuthenticatorData::to_vec (decided under C12)",
+              "the client layer: client data JSON (type, challenge, origin), effective RP ID (C01), id/rawId agreement in the WebAuthn response",
+              "user handle (decided under C11)", "U2F authenticate (C17)"],
+     level_text="PARTIAL claim: the authenticator-level binding of signature, key, credential id, authenticator data and client data hash; cryptography and the client layer are not decided.",
+     technique="symbolic path execution of rustc MIR with z3 path feasibility (own encoder): provenance of the arguments of the signing call on every path; native replay with real signature verification",
      trusted=E2_TRUST,
      )
